@@ -1029,7 +1029,8 @@ def mk_server_cfg(args: ArgsType) -> configparser.SectionProxy:
         if opt in args:
             value = args[opt]
             if test_cfg_val(opt, value):
-                cfg[opt] = arg2config(opt, opt_type, value)
+                # '%' must be doubled to survive ConfigParser's interpolation
+                cfg[opt] = arg2config(opt, opt_type, value).replace("%", "%%")
 
     return cfg
 
